@@ -224,6 +224,8 @@ class Assembled:
         self.lines = []
         self.clause_at = {}      # line no (1-based) -> (fnkey, label, kind)
         self.fn_ranges = []      # (start, end, fnkey)
+        self.fn_bodies = {}      # fnkey -> body text (for the callee scan)
+        self.calls_uncontracted = {}   # fnkey -> [uncontracted callee keys it mentions]
         self.contracted = []     # fn keys with a contract
         self.uncontracted = []   # fn keys without
         self.external = []       # fn keys kept external by contract (assumed)
@@ -259,6 +261,7 @@ def assemble(vacuity=False, only_files=None, extra_theorems=True, extracted=None
     A.add("verus! {")
     A.add("// ===================================================================== PRELUDE")
     A.add(open(os.path.join(VERIF, "verus", "prelude.rs")).read())
+    A.spec_start = A.lineno()
     A.add("// ===================================================================== SPEC (RFC 9807 / RFC 9497)")
     A.add(open(os.path.join(VERIF, "verus", "spec_rfc.rs")).read())
     A.add("// ===================================================================== EXTRACTED from /repo/src")
@@ -391,6 +394,8 @@ def assemble(vacuity=False, only_files=None, extra_theorems=True, extracted=None
             body_rest = body_rest[:hdr_start] + hdr.rstrip() + inv + "    {" + bp + body_rest[p + len(mark):]
         A.add(body_rest.lstrip("\n").rstrip())
         A.fn_ranges.append((start_line, A.lineno() - 1, key + ("__vac" if dup else "")))
+        if not dup:
+            A.fn_bodies[key] = body_rest
 
     def collect_block(start):
         """collect a brace-balanced item starting at lines[start]; returns (block_lines, next_index)"""
@@ -627,6 +632,20 @@ def assemble(vacuity=False, only_files=None, extra_theorems=True, extracted=None
     if cur_file is not None and not skip_file:
         A.add("} // mod x_" + cur_file)
         A.add("pub use x_" + cur_file + "::*;")
+    # which functions call a function that has no contract (typically a function new to the tree)?
+    for uk in A.uncontracted:
+        parts = uk.split("::")
+        name = parts[-1]
+        pats = []
+        if len(parts) >= 3:
+            ty = parts[-2]
+            pats.append(r"\b(%s|Self)\s*(::\s*<[^;{}]*?>)?\s*::\s*%s\b" % (re.escape(ty), re.escape(name)))
+            pats.append(r"\.\s*%s\s*(::\s*<[^;{}]*?>)?\s*\(" % re.escape(name))
+        else:
+            pats.append(r"(?<![\w:.])%s\s*(::\s*<[^;{}]*?>)?\s*\(" % re.escape(name))
+        for fk, body in A.fn_bodies.items():
+            if fk != uk and any(re.search(pt, body) for pt in pats):
+                A.calls_uncontracted.setdefault(fk, []).append(uk)
     if only_files is None:
         missing = [k for k in fns if k not in used_fn_contracts]
         if missing:
@@ -744,6 +763,7 @@ def classify(A, res):
     hard = []               # compile / type / unsupported errors -> undecided
     theorem_fail = {}       # theorem fn name -> messages
     rlimit = []
+    panic_fns = {}          # subset of failed_fns: the failing obligation is a panic condition of the executable code
 
     def fn_of_line(ln):
         for a, b, k in A.fn_ranges:
@@ -821,14 +841,45 @@ def classify(A, res):
                     theorem_fail.setdefault(theorem_at(A, ln), []).append(d.get("rendered", msg)); attributed = True; break
                 k = fn_of_line(ln)
                 if k:
-                    failed_fns.setdefault(k, []).append(d.get("rendered", msg)); attributed = True; break
+                    failed_fns.setdefault(k, []).append(d.get("rendered", msg)); attributed = True
+                    if is_panic_class(A, msg, spans):
+                        panic_fns.setdefault(k, []).append(d.get("rendered", msg))
+                    break
                 if ln < A.extracted_start and sp.get("file_name", "").endswith(".rs") and "/gen/" in sp.get("file_name", ""):
                     # a lemma of the spec / prelude section
                     theorem_fail.setdefault(theorem_at(A, ln), []).append(d.get("rendered", msg)); attributed = True; break
         if not attributed:
             hard.append(d.get("rendered", msg))
     A.hard_fns = hard_fns
+    A.panic_fns = panic_fns
     return failed_clauses, failed_fns, theorem_fail, hard, rlimit
+
+
+# preconditions on EXTRACTED functions that guard a panic in their body (unreachable!(), unchecked indexing, unwrap)
+PANIC_REQ = {"nocustom", "len", "plain", "label", "keylen", "derive_ok"}
+
+
+def is_panic_class(A, msg, spans):
+    """does this body failure say 'the executable code may panic here' (as opposed to: a proof step / a value precondition failed)?"""
+    if any(v in msg for v in ("possible arithmetic underflow/overflow", "possible division by zero", "possible bit shift underflow/overflow",
+                              "index out of bounds", "unreachable", "slice")):
+        return True
+    if msg.startswith("precondition not satisfied"):
+        for sp in spans:
+            if sp.get("label") == "failed precondition":
+                ln = sp["line_start"]
+                if ln in A.clause_at:
+                    return A.clause_at[ln][1] in PANIC_REQ
+                if ln < A.spec_start:
+                    # a prelude shim: exec functions carry the library's panic conditions as preconditions, proof functions do not
+                    for q in range(ln - 1, max(ln - 40, 0), -1):
+                        mm = re.match(r"^\s*(pub\s+)?(broadcast\s+)?(proof\s+|spec\s+)?fn\s+\w+", A.lines[q - 1])
+                        if mm:
+                            return mm.group(3) is None
+                    return True
+                return False
+        return True
+    return False
 
 
 def theorem_at(A, ln):
